@@ -58,6 +58,9 @@ func judgeResponses(w *rig.World, aborted map[int64]bool) (string, string) {
 		if q.ReturnSeq == 0 {
 			return "c11-handler-never-returned", what + ": HandleRequest has not returned although the session is closed and 40 s passed"
 		}
+		if q.WritesAfterReturn > 0 {
+			return "c11-response-written-after-handler-returned", fmt.Sprintf("%s: the handler returned while the request's response was still being written (%d writer calls overlapped or followed the return)", what, q.WritesAfterReturn)
+		}
 		if q.WriteHeaders > 1 {
 			return "c11-two-responses", fmt.Sprintf("%s: WriteHeader called %d times", what, q.WriteHeaders)
 		}
@@ -465,10 +468,83 @@ func runC11OverlapWhileAnswering(r *rep.Report) (key, msg string, held bool) {
 	return
 }
 
+// runC11AbortWhileAnswering: the client drops the connection of a poll (or of a data request)
+// exactly while the server is writing that request's response (the header write is held).  The
+// handler may only return once the response writer is no longer in use.
+func runC11AbortWhileAnswering(kind string, r *rep.Report) (key, msg string, held bool) {
+	rig.Bubble(r.T(), func() {
+		so := &config.ServerOptions{}
+		so.SetPingInterval(20 * time.Second)
+		w := rig.NewWorld(rig.Options{Server: so})
+		defer w.Finish()
+		cl, err := w.Connect(rig.ClientCfg{Rev: 4, Transport: "polling"})
+		rig.Wait()
+		sock := w.Socket(0)
+		if err != nil || sock == nil {
+			key, msg = "c11-handshake-failed", fmt.Sprint(err)
+			return
+		}
+		hold := make(chan struct{})
+		var once sync.Once
+		var got atomic.Bool
+		method := map[string]string{"poll": "GET", "data": "POST"}[kind]
+		w.SetHoldHeader(func(req rig.Req, code int) chan struct{} {
+			if req.Method != method || req.Sid == "" {
+				return nil
+			}
+			var ch chan struct{}
+			once.Do(func() { ch = hold; got.Store(true) })
+			return ch
+		})
+		var x *rig.Exchange
+		if kind == "poll" {
+			x = cl.PollStart()
+			time.Sleep(time.Millisecond)
+			rig.Wait()
+			sock.Send(types.NewStringBufferString("m"), nil, nil)
+		} else {
+			x = cl.PostStart([]refcodec.Packet{refcodec.Text(refcodec.Message, "hello")})
+		}
+		rig.Settle()
+		held = got.Load()
+		if !held {
+			r.Inconclusive("abort-while-answering: the response's header write was not reached")
+			close(hold)
+			return
+		}
+		// the writer is inside the request context's write lock: settle on real time
+		x.Abort()
+		rig.Settle()
+		rig.Settle()
+		close(hold)
+		rig.Settle()
+		time.Sleep(time.Second)
+		rig.Wait()
+		w.SetHoldHeader(nil)
+		key, msg = judgeResponses(w, map[int64]bool{})
+		cl.Stop()
+	})
+	return
+}
+
 func TestC11(t *testing.T) {
 	r := rep.New(t, "C11")
 	defer r.Flush()
 	r.Rule("PRNG polling/JSONP histories over real net/http: overlapping polls, overlapping data requests (first one with a slow body), a pending poll while the session closes by each cause (including the client's own close packet in a data request), polls and data requests aborted by the client mid-flight, multi-packet data requests with a listener that takes time (acknowledgement ordering by tap sequence numbers), a revision-4 data request with a binary content type, mixed conformant histories with server sends and heartbeats, and a data request whose listener is running when the session is closed from another goroutine while the first header write is held (harness-side gate in the ResponseWriter); oracle: counting ResponseWriter (exactly one WriteHeader per non-aborted exchange), handler return log, 400 + 'transport error' on overlap, bubble goroutine-leftover scan 40 s after everything closed; distinct = scenario signature")
+	if r.Lane == 3%r.Lanes {
+		for k := 0; k < r.N(8, 200); k++ {
+			for _, kind := range []string{"poll", "data"} {
+				key, msg, held := runC11AbortWhileAnswering(kind, r)
+				r.Case("abort-while-answering/"+kind, held)
+				if held {
+					r.Obs("gate:client_abort_while_the_response_header_write_is_held", 1)
+				}
+				if key != "" {
+					r.Violation(key, msg, map[string]string{"lane": "client abort while the response is being written", "request": kind})
+				}
+			}
+		}
+	}
 	if r.Lane == 2%r.Lanes {
 		for k := 0; k < r.N(8, 200); k++ {
 			key, msg, held := runC11OverlapWhileAnswering(r)
